@@ -72,6 +72,15 @@ CLAIMED = {
                 note="Trusted: z3 FP theory and nlsat, the fmod contract and the atan2 range abstraction, the ast scanner (stores via setattr would make it "
                      "inconclusive), ModelFloat's formatter contract. NaN/inf, decimal<->binary conversion in C, parse_vec_str and the Cython twins are outside.",
                 technique="per-write-site SMT floating-point queries generated from the current source (ast -> z3 Float64); real operators on z3 Real terms; CrossHair for text"),
+    "C12": dict(engine="chx", category="model_checking",
+                text="The real AtomicWriter runs against a model file system (POSIX rename, exclusive create, user-space buffering) with the crash point and "
+                     "one injected fault as symbolic operation indices, symbolic old/new bytes, stale temp files and body exceptions: at every crash "
+                     "point the destination is the complete old or new contents, failures keep the old contents and leave no temp file, temps are "
+                     "created exclusively. Two writers in one directory are run under every interleaving of their FS operations (14 symbolic schedule "
+                     "bits, lock-stepped threads).",
+                note="Trusted: the environment contract in vf/stubs/wfs.py (validated against a real temp directory), CrossHair, z3. A kill inside one "
+                     "write() call, fsync ordering, >1 fault, >2 writers and BSP.save's own body are outside.",
+                technique=_E1 + "; crash/fault positions and the schedule are solver variables"),
 }
 _TODO = "check not built yet in this round (planned: see DESIGN.md section 3)"
 NOT_APPLICABLE = {f"C{i:02d}": _TODO for i in range(1, 21) if f"C{i:02d}" not in CLAIMED}
